@@ -27,33 +27,20 @@ _F10 = 'symbolic sign, magnitude < 2^24, base 10, concrete digit count (suffix _
 
 _FLOAT_ALL = ['C03', 'C08', 'C10', 'C14', 'C18']
 
-STUB_FLOAT = {
-    'vk_stub_float_split_digits_b2': _h(_F1 + '; base 2; pos 0..=70; owned and borrowed form', ['C03', 'C10']),
-    'vk_stub_float_split_digits_b2_dword': _h(_F2 + '; base 2; pos 0..=130', ['C03', 'C10'], 'thorough'),
-    'vk_stub_float_split_digits_b16': _h(_F1 + '; base 16; pos 0..=17', ['C03', 'C10'], 'thorough'),
-    'vk_stub_float_split_digits_b10_p0': _h(_F10, ['C03', 'C10'], 'thorough'),
-    'vk_stub_float_split_digits_b10_p1': _h(_F10, ['C03', 'C10']),
-    'vk_stub_float_split_digits_b10_p2': _h(_F10, ['C03', 'C10'], 'thorough'),
-    'vk_stub_float_split_digits_b10_p3': _h(_F10, ['C03', 'C10'], 'thorough'),
-    'vk_stub_float_digit_len_b2': _h(_F1 + '; base 2; also Repr::digits with any exponent', _FLOAT_ALL),
-    'vk_stub_float_digit_len_b2_dword': _h(_F2 + '; bases 2 and 16', ['C03', 'C10'], 'thorough'),
-    'vk_stub_float_digit_len_b10': _h('symbolic sign, magnitude < 10^5, base 10 (f32 log2 estimate as modelled by CBMC '
-                                      '+ exact correction loop)', ['C03', 'C10'], 'thorough'),
-    'vk_stub_float_shl_digits_b2': _h(_F1 + '; base 2; exp 0..=64; shl_digits and shl_digits_in_place', ['C03', 'C08']),
-    'vk_stub_float_shl_digits_b16': _h(_F1 + '; base 16; exp 0..=16', ['C03', 'C08'], 'thorough'),
-    'vk_stub_float_shl_digits_b10_e0': _h(_F10, ['C03', 'C08'], 'thorough'),
-    'vk_stub_float_shl_digits_b10_e1': _h(_F10, ['C03', 'C08'], 'thorough'),
-    'vk_stub_float_shl_digits_b10_e3': _h(_F10, ['C03', 'C08'], 'thorough'),
-    'vk_stub_float_shr_digits_b2': _h(_F2 + '; base 2; exp 0..=130', ['C08', 'C10']),
-    'vk_stub_float_shr_digits_b16': _h(_F1 + '; base 16; exp 0..=17', ['C08', 'C10'], 'thorough'),
-    'vk_stub_float_shr_digits_b10_e0': _h(_F10, ['C08', 'C10'], 'thorough'),
-    'vk_stub_float_shr_digits_b10_e1': _h(_F10, ['C08', 'C10'], 'thorough'),
-    'vk_stub_float_shr_digits_b10_e3': _h(_F10, ['C08', 'C10'], 'thorough'),
-    'vk_stub_float_repr_new_b2': _h(_F1 + '; base 2; |exponent| < 2^40', _FLOAT_ALL),
-    'vk_stub_float_repr_new_b16': _h(_F1 + '; base 16; |exponent| < 2^40', ['C03', 'C10'], 'thorough'),
-    'vk_stub_float_repr_new_b10': _h('symbolic sign, magnitude < 2^14, base 10 (UBig::remove); |exponent| < 2^40',
-                                     ['C03', 'C10'], 'thorough'),
-}
+def _scan(fname, prefix):
+    """Harness names defined in a harness file (every identifier with the group's unique prefix), in file order."""
+    import os
+    import re
+    path = os.path.join(os.path.dirname(os.path.dirname(os.path.dirname(os.path.abspath(__file__)))), 'kani', 'harness',
+                        fname)
+    out = []
+    for n in re.findall(r'\b(%s\w+)\b' % prefix, open(path).read()):
+        if n not in out:
+            out.append(n)
+    return out
+
+
+STUB_FLOAT = {n: _h('TBD', _FLOAT_ALL, 'thorough') for n in _scan('stub_float.rs', 'vk_stub_float_')}
 
 KANI = {
     'stub_float': {
